@@ -27,8 +27,8 @@ type C10Payload struct {
 
 type C10Attack struct {
 	Payloads []C10Payload `json:"payloads"` // written to the session, in order
-	PauseMs  int      `json:"pause_ms"`
-	ChunkMax int      `json:"chunk_max"` // writes are split into chunks of at most this many bytes (0: whole)
+	PauseMs  int          `json:"pause_ms"`
+	ChunkMax int          `json:"chunk_max"` // writes are split into chunks of at most this many bytes (0: whole)
 }
 
 type C10Scenario struct {
